@@ -264,6 +264,27 @@ def intLiteral (n : Nat) (suf : Suffix) : Except Err Nat :=
     | .kb => if G.kbOver n then .error .intOverflow else .ok (n * G.kbMul)
     | .mb => if G.mbOver n then .error .intOverflow else .ok (n * G.mbMul)
 
+/-- `strtoll` on a digit string of value `n`: the result saturates at LLONG_MAX and `errno` becomes ERANGE on overflow;
+    on success `errno` is LEFT AS IT WAS (C11 7.5p3: no library function sets errno to zero). `errno`: is it ERANGE? -/
+def strtollC (n : Nat) (errno : Bool) : Nat × Bool :=
+  if n > int64Max then (int64Max, true) else (n, errno)
+
+/-- One integer-literal rule of lexer.l as a state transformer on the thread's `errno`: `[errno = 0;] v = strtoll(…);
+    if (v == LLONG_MAX && errno == ERANGE) error`. `resets`: the rule has the `errno = 0;` (translated: `litRules`). -/
+def lexInt (resets : Bool) (errnoIn : Bool) (n : Nat) : Except Err Nat × Bool :=
+  let r := strtollC n (if resets then false else errnoIn)
+  (if r.1 == int64Max && r.2 then .error .intOverflow else .ok r.1, r.2)
+
+def resetsOf (rules : List (Nat × Bool)) (radix : Nat) : Bool :=
+  match rules.find? (·.1 == radix) with | some r => r.2 | none => false
+
+/-- a sequence of literals lexed on one thread (across compilers and compilations): `errno` is threaded through -/
+def lexIntSeq (rules : List (Nat × Bool)) : Bool → List (Nat × Nat) → List (Except Err Nat)
+  | _, [] => []
+  | e, (radix, n) :: rest =>
+    let r := lexInt (resetsOf rules radix) e n
+    r.1 :: lexIntSeq rules r.2 rest
+
 /-! ## 7. Regular expressions: split ids and code size (re.c `_yr_re_emit`) -/
 
 /-- The fragment of RE_NODE the generator uses. `range lo hi` is `e{lo,hi}` (`e?` = `{0,1}`). -/
@@ -430,6 +451,16 @@ def vmReads (N : Nat) : Nat → Nat → Nat
   | cycle, k + 1 =>
     let r := vmTick G N cycle
     (if r.2 then 1 else 0) + vmReads N r.1 k
+
+/-- The instruction loop over a PROGRAM (the opcode of every executed instruction, across all rules): an opcode listed in
+    `writers` (translated: `vmCycleWriters`, the `case` bodies that assign `cycle`) restarts the count before the
+    bottom-of-loop guard runs. Number of clock reads. -/
+def vmReadsProg (N : Nat) (writers : List String) : Nat → List String → Nat
+  | _, [] => 0
+  | cycle, op :: rest =>
+    let c := if writers.contains op then 0 else cycle
+    let r := vmTick G N c
+    (if r.2 then 1 else 0) + vmReadsProg N writers r.1 rest
 
 /-- Block loop: `if (i % 4096 == 0 && timeout > 0) read clock`. Reads among byte positions `[a, a+k)`. -/
 def blockReads (S : Nat) : Nat → Nat → Nat
